@@ -14,6 +14,10 @@
 (*             every magnitude <= 32, Negate(m) needs magnitude <= m and    *)
 (*             yields m+1, MulInt/SetAdd multiply/add magnitudes,           *)
 (*             IsOdd/IsZero/Equals/GetB32 need a normalised operand.        *)
+(*  "limbs"    raw 5x52 limb PATTERNS as operands: every limb independently    *)
+(*             from {0, 1, all-ones, all-ones +-1, the limb of p there, that  *)
+(*             +-1}, the full product, each also scaled to higher magnitudes; *)
+(*             the model says which Field methods the contract allows on it.  *)
 (*  "group"    registers hold P(f): the multiple f*G of the generator,      *)
 (*             f a LINEAR FORM with small integer coefficients over named   *)
 (*             constants 1, k (generic), lambda, 2^128, 2^256-1, 2^200-1    *)
@@ -39,7 +43,7 @@
 EXTENDS Integers, Sequences, FiniteSets, TLC
 
 CONSTANTS
-    Mode,       \* "field" | "group" | "tables" | "formulas"
+    Mode,       \* "field" | "limbs" | "group" | "tables" | "formulas"
     MaxLen,     \* field / group: number of operations after the initial load
     FA, FB,     \* field: operand names register 1 / 2 may be loaded with ({"*"} = all)
     GA, GB,     \* group: load names for register 1 / 2 ({"*"} = all)
@@ -71,8 +75,8 @@ FSel(S) == IF S = {"*"} THEN FOperands ELSE {o \in FOperands : o.e \in S}
 FRegs == 1..3
 Dst(a) == IF a = 3 THEN {3} ELSE {a, 3}     \* results go back to the operand register or to the scratch register
 
-VARIABLES fr, gr, tb, fm, len
-vars == <<fr, gr, tb, fm, len>>
+VARIABLES fr, gr, tb, fm, lb, len
+vars == <<fr, gr, tb, fm, lb, len>>
 
 FSet(d, v) == fr' = [fr EXCEPT ![d] = v]
 Call1(f, x) == f \o "(" \o x \o ")"
@@ -125,6 +129,33 @@ FAbs(r) == [m |-> fr[r].m, nz |-> fr[r].nz, z |-> fr[r].z,
             src |-> IF fr[r] \in FOperands THEN fr[r].e ELSE "computed"]
 
 FMagOK == \A r \in FRegs : fr[r].m \in 0..MagMax /\ (fr[r].nz => fr[r].m <= 1)
+
+-----------------------------------------------------------------------------
+(* ------------------------- raw limb patterns --------------------------- *)
+(* A field element is five limbs n[0..4], value = sum n[i] * 2^(52 i); canonical limbs are below 2^52 (n[4] below  *)
+(* 2^48).  p = (P0, M, M, M, T) with M = 2^52-1, T = 2^48-1, P0 = 0xFFFFEFFFFFC2F.  The decisions of Normalize      *)
+(* (carry out of each limb, "is the value >= p") depend on each limb being 0, all ones, or next to p's limb, so      *)
+(* the class of operands is the PRODUCT of a few symbolic values per limb:                                           *)
+(*   0 | 1 | M, Mm1, Mp1 (2^52-1, -2, 2^52) | T, Tm1, Tp1 (top limb) | P, Pm1, Pp1 (limb 0 of p and its neighbours)  *)
+(* Variants raise the magnitude: "mul" c multiplies every limb by c, "addp" m adds the limbs of 2m*p.               *)
+Limb0Vals   == {"0", "1", "M", "Mm1", "Mp1", "P", "Pm1", "Pp1"}
+LimbMidVals == {"0", "1", "M", "Mm1", "Mp1"}          \* p's limbs 1..3 are M
+LimbTopVals == {"0", "1", "T", "Tm1", "Tp1"}          \* p's limb 4 is T
+LimbPatterns == [l0 : Limb0Vals, l1 : LimbMidVals, l2 : LimbMidVals, l3 : LimbMidVals, l4 : LimbTopVals]
+LimbVariants == {[kind |-> "mul", c |-> c] : c \in {1, 2, 3, 16, 63}} \cup {[kind |-> "addp", c |-> m] : m \in {1, 7, 31}}
+\* every limb of a pattern is <= M+1 <= 2M: magnitude 1; c*(M+1) <= 2*(c \div 2 + 1)*M; pattern + 2m*p has magnitude m+1
+LimbMag(v) == IF v.kind = "mul" THEN v.c \div 2 + 1 ELSE v.c + 1
+\* what the contract allows on an operand of magnitude m (the driver runs each on a fresh copy and on a generic
+\* second operand of magnitude 1 where one is needed); the observers are asked after Normalize
+LimbOps(m) == <<"Normalize", "IsOdd", "IsZero", "GetB32", "Equals">>
+              \o (IF m <= MulMax THEN <<"Mul", "Sqr", "Inv">> ELSE <<>>)
+              \o (IF m + 1 <= MagMax THEN <<"Negate", "SetAdd">> ELSE <<>>)
+              \o (IF 2 * m <= MagMax THEN <<"MulInt2">> ELSE <<>>)
+LimbCases == {[l |-> <<p.l0, p.l1, p.l2, p.l3, p.l4>>, v |-> v, m |-> LimbMag(v), ops |-> LimbOps(LimbMag(v))] :
+              p \in LimbPatterns, v \in LimbVariants}
+NoLimbs == [l |-> <<"0", "0", "0", "0", "0">>, v |-> [kind |-> "none", c |-> 0], m |-> 0, ops |-> <<>>]
+LStep == lb = NoLimbs /\ lb' \in LimbCases
+LimbsOK == lb.m \in 0..MagMax /\ (\A i \in 1..Len(lb.ops) : lb.ops[i] \in {"Mul", "Sqr", "Inv"} => lb.m <= MulMax)
 
 -----------------------------------------------------------------------------
 (* ----------------------------- group layer ----------------------------- *)
@@ -329,20 +360,21 @@ NoFm == [prog |-> "Double", pc |-> 1000, ok |-> TRUE, mag |-> [t \in Temps |-> 0
 Init == /\ len = 0
         /\ IF Mode = "field" THEN FInit ELSE fr = NoF
         /\ IF Mode = "group" THEN GInit ELSE gr = NoG
-        /\ tb = NoEntry
+        /\ tb = NoEntry /\ lb = NoLimbs
         /\ IF Mode = "formulas" THEN FmInit ELSE fm = NoFm
 
-Next == \/ Mode = "field" /\ len < MaxLen /\ FStep /\ len' = len + 1 /\ UNCHANGED <<gr, tb, fm>>
-        \/ Mode = "group" /\ len < MaxLen /\ GStep /\ len' = len + 1 /\ UNCHANGED <<fr, tb, fm>>
-        \/ Mode = "tables" /\ TStep /\ UNCHANGED <<fr, gr, fm, len>>
-        \/ Mode = "formulas" /\ FmStep /\ UNCHANGED <<fr, gr, tb, len>>
+Next == \/ Mode = "field" /\ len < MaxLen /\ FStep /\ len' = len + 1 /\ UNCHANGED <<gr, tb, fm, lb>>
+        \/ Mode = "group" /\ len < MaxLen /\ GStep /\ len' = len + 1 /\ UNCHANGED <<fr, tb, fm, lb>>
+        \/ Mode = "tables" /\ TStep /\ UNCHANGED <<fr, gr, fm, lb, len>>
+        \/ Mode = "formulas" /\ FmStep /\ UNCHANGED <<fr, gr, tb, lb, len>>
+        \/ Mode = "limbs" /\ LStep /\ UNCHANGED <<fr, gr, tb, fm, len>>
 
 Spec == Init /\ [][Next]_vars
 
 \* exploration identifies states that offer the same operations
-AbsView == <<[r \in FRegs |-> FAbs(r)], gr, tb, fm, len>>
+AbsView == <<[r \in FRegs |-> FAbs(r)], gr, tb, fm, lb, len>>
 
 \* evaluated once, in the initial state of the "tables" mode
 TablesOK == (Mode = "tables" /\ tb = NoEntry) => CombIdentity /\ WnafIdentity
-TypeOK == len \in 0..MaxLen /\ (Mode = "field" => FMagOK) /\ (Mode = "group" => GInfExact)
+TypeOK == len \in 0..MaxLen /\ (Mode = "field" => FMagOK) /\ (Mode = "group" => GInfExact) /\ LimbsOK
 =============================================================================
